@@ -56,6 +56,10 @@ func (cj *CookieJar) Get(uri *fasthttp.URI) []*fasthttp.Cookie {
 
 // getByHostAndPath returns cookies stored for a specific host and path.
 func (cj *CookieJar) getByHostAndPath(host, path []byte) []*fasthttp.Cookie {
+	// the list is the jar's own: it is purged and read under the lock
+	cj.mu.Lock()
+	defer cj.mu.Unlock()
+
 	if cj.hostCookies == nil {
 		return nil
 	}
@@ -72,7 +76,7 @@ func (cj *CookieJar) getByHostAndPath(host, path []byte) []*fasthttp.Cookie {
 		hostStr = utils.UnsafeString(host)
 	}
 	// get cookies deleting expired ones
-	cookies = cj.getCookiesByHost(hostStr)
+	cookies = cj.purgeExpired(hostStr)
 
 	newCookies := make([]*fasthttp.Cookie, 0, len(cookies))
 	for i := 0; i < len(cookies); i++ {
@@ -91,6 +95,11 @@ func (cj *CookieJar) getCookiesByHost(host string) []*fasthttp.Cookie {
 	cj.mu.Lock()
 	defer cj.mu.Unlock()
 
+	return cj.purgeExpired(host)
+}
+
+// purgeExpired removes the expired cookies of a host and returns the remaining ones. The caller must hold cj.mu.
+func (cj *CookieJar) purgeExpired(host string) []*fasthttp.Cookie {
 	now := time.Now()
 	cookies := cj.hostCookies[host]
 
